@@ -196,12 +196,20 @@ class Ctx:
             self.log("coq build FAILED")
         return ok, log
 
-    def prove(self, targets=None):
-        """The standard first step of every check: build, fresh coqc of Props/<pid>.v, report."""
+    def prove(self, targets=None, extra_props=()):
+        """The standard first step of every check: build, fresh coqc of Props/<pid>.v, report.
+
+        extra_props: further statement files (Props/<name>.v, e.g. the composition theorems that
+        link this property's model to another one's) that this check re-checks as well."""
+        targets = list(targets or ["Props/%s.vo" % self.pid]) + ["Props/%s.vo" % n for n in extra_props]
         ok_build, log = self.coq_build(targets)
         props_ok, pout = (False, log)
         if ok_build:
             props_ok, pout = self.coq_props()
+            for n in extra_props:
+                ok2, out2 = self.coq_props(n)
+                if not ok2:
+                    props_ok, pout = False, out2
         if not props_ok:
             self.violation({"kind": "theorem-no-longer-checks", "file": "coq/Props/%s.v" % self.pid, "log": pout[-1500:]}, found_input=False)
         self.trusted_base.append("Coq 8.16.1 kernel + vm_compute (no native_compute)")
